@@ -3,6 +3,7 @@
 package tcell
 
 import (
+	"sync"
 	"io"
 	"os"
 
@@ -26,6 +27,11 @@ type hTty struct {
 	badOrder   []string
 	writes     int
 	lateWrites int
+	// scrMu, when set by the harness, is the screen's mutex: a write that arrives while
+	// nobody holds it can interleave with another goroutine's output (C10: each Show
+	// reaches the terminal as one contiguous block)
+	scrMu          *sync.Mutex
+	unlockedWrites int
 }
 
 func newHTty(w, h int) *hTty {
@@ -101,6 +107,10 @@ func (t *hTty) Read(p []byte) (int, error) {
 
 func (t *hTty) Write(p []byte) (int, error) {
 	t.writes++
+	if t.scrMu != nil && t.scrMu.TryLock() {
+		t.unlockedWrites++
+		t.scrMu.Unlock()
+	}
 	if !t.running {
 		// permitted when the application itself calls the screen while suspended
 		// ("no I/O after Stop unless the application calls the screen again"); the
